@@ -257,12 +257,14 @@ def oracle_stream(pid, sc, ob):
     cs = sc["chunk"]
     st = {"accepted": b"", "delivered": b"", "fill": 0, "reader_gone": False, "writer_gone": False, "aborted": False,
           "parked": None, "woken": False, "terminal": None}
+    hints = []      # (lower, upper, bytes delivered before the poll) sampled before every poll
 
     def on_poll(c, r):
         pre, ev = r.split(">", 1)
         lo, up, eos = pre.split(":")
         eos = eos == "1"
         kind = ev[0]
+        hints.append((int(lo), None if up == "-" else int(up), len(st["delivered"])))
         if pid == "C10" and kind != "P" and st["parked"] is not None and not st["woken"]:
             # something was there for the consumer, it had gone to sleep on waker `parked`, and nobody woke that waker
             return "the consumer parked on waker %s, then %s became available, but that waker was never woken" % (
@@ -374,6 +376,14 @@ def oracle_stream(pid, sc, ob):
             why = on_poll("P", inl)
             if why:
                 return why + " (consumer polling at once when woken)"
+    if pid == "C12" and st["terminal"] == "N":
+        # the body ended cleanly: every hint sampled on the way must bracket the bytes that were still to come
+        total = len(st["delivered"])
+        for lo, up, before in hints:
+            if lo > total - before:
+                return "size_hint lower bound %d, but only %d more bytes were delivered before the clean end" % (lo, total - before)
+            if up is not None and up < total - before:
+                return "size_hint upper bound %d, but %d more bytes were delivered before the clean end" % (up, total - before)
     return None
 
 
@@ -795,6 +805,24 @@ def fam_stream_long_writes():
     return out
 
 
+def fam_stream_queued():
+    """Everything is queued and the writer is gone before the consumer polls for the first time: 1..3 short chunks (explicit
+    flushes) followed by a short, a full or an over-long write, then the drop, then polls with hints sampled at every step."""
+    out, k = [], 0
+    for cs in (2, 3, 4, 8):
+        shorts = [1] if cs == 2 else [1, cs - 1]
+        for n in (1, 2, 3):
+            for lens in itertools.product(shorts, repeat=n):
+                for last in ([], ["W61"], ["L" + "7a" * cs], ["L" + "7a" * (cs + 1)], ["L" + "7a" * (cs - 1)]):
+                    for end in (["X"], ["A"], ["F", "X"]):
+                        k += 1
+                        ops = []
+                        for i, ln in enumerate(lens):
+                            ops += ["L" + ("%02x" % (0x61 + i)) * ln, "F"]
+                        out.append({"id": "qd%d" % k, "chunk": cs, "ops": ops + last + end + ["P"] * (n + 4)})
+    return out
+
+
 def fam_stream_disconnect():
     out = []
     k = 0
@@ -808,7 +836,7 @@ def fam_stream_disconnect():
 
 FAMILIES[("chunker", "Reader::drop")] = ("stream_witness", fam_stream_disconnect)
 def _fam_chunker():
-    fam = fam_stream_inline() + fam_stream_long_writes() + fam_stream_ops(5, (2, 3)) + fam_stream_ops(4, (1,))
+    fam = fam_stream_inline() + fam_stream_long_writes() + fam_stream_queued() + fam_stream_ops(5, (2, 3)) + fam_stream_ops(4, (1,))
     if os.environ.get("VERIF_TIER") == "thorough":
         fam += [sc for sc in fam_stream_ops(6, (2,)) if len(sc["ops"]) == 10]      # every history of exactly 6 operations (10^6) at chunk size 2
     return fam
@@ -1003,12 +1031,18 @@ def tag_list(v):
             return None
         out.append(m.group(0))
         i += m.end()
-        if i < len(v):
-            if v[i] != ",":
+        j = i
+        while j < len(v) and v[j] in " \t":      # OWS before the comma (RFC 7230 7: element *( OWS "," OWS element ))
+            j += 1
+        if j == len(v):
+            return out if j == i else "trailing-ows:" + repr(out)      # OWS after the last tag: not sender grammar, tolerated or not
+        if v[j] != ",":
+            if j > i:
                 return None
+            continue                                    # a tag directly after a tag: tolerated by the implementation, no expectation
+        i = j + 1
+        while i < len(v) and v[i] in " \t":
             i += 1
-            while i < len(v) and v[i] in " \t":
-                i += 1
     return out
 
 
@@ -1031,7 +1065,7 @@ def expected_cond(sc):
     pf = False
     if im is not None:
         tl = tag_list(im)
-        if tl is None:
+        if tl is None or (isinstance(tl, str) and tl.startswith("trailing-ows")):
             return "skip"
         pf = not (tl == "*" or (etag is not None and any(t == etag and not t.startswith("W/") for t in tl)))
     elif ius is not None and lm_sec is not None:
@@ -1048,7 +1082,7 @@ def expected_cond(sc):
     nm = False
     if inm is not None:
         tl = tag_list(inm)
-        if tl is None:
+        if tl is None or (isinstance(tl, str) and tl.startswith("trailing-ows")):
             return "skip"
         nm = tl == "*" or (etag is not None and any(_opaque(t) == _opaque(etag) for t in tl))
     elif ims is not None and lm_sec is not None:
@@ -1083,6 +1117,12 @@ def fam_cond():
     # entity-tags whose opaque part contains / ends in a backslash (an ordinary etagc: entity-tags have no quoted-pair),
     # a comma or a space; modification times 1 ns / 1 ms before the next second (C14's echo round trip)
     bs = '"C:\\data\\"'
+    # OWS on both sides of the list comma, OWS after the last tag (totality only), tags that differ from the ETag in case only
+    for etag in ('"x"', '"Xy"', 'W/"x"'):
+        for hname in ("if-match", "if-none-match"):
+            for v in ('"y" , %s', '%s ,"y"', '"y"\t,\t%s', '"y" ,  %s , "z"', '%s ', '%s\t', '"y", %s  ', '%s , ', '"y" %s', '%s "y"', '"xY"', '"XY", "xy"', 'W/"xY"', '"X"', '"y","X"'):
+                k += 1
+                out.append({"id": "cd%d" % k, "method": "GET", "headers": [(hname, v % etag if "%s" in v else v)], "len": 10, "etag": etag, "lm": "%d.0" % LM, "scripts": ["N"], "extra_polls": 0})
     for etag, tl in ((bs, [bs, bs + ', "foo"', '"foo", ' + bs, 'W/' + bs]), ('"foo"', [bs + ', "foo"', '"a\\", "foo"', '"\\"', '"a b", "foo"']), ('"a b"', ['"a b"', '"a", "a b"'])):
         for hname in ("if-match", "if-none-match"):
             for v in tl:
